@@ -20,7 +20,7 @@ ASSUMPTIONS = [
     "a time() value given before the run has been started (explicitly or on demand) is forgotten by startTestRun, as documented for TestResult.startTestRun",
 ]
 
-HIST = H.s_history(max_tests=4, with_control=False, with_startless=False, test_kinds=("case", "case", "placeholder"), max_ops=30)
+HIST = H.s_history(max_tests=4, with_control=False, with_startless=False, test_kinds=("case", "case", "placeholder"), max_ops=30, skip_both=True)
 OUT = {"success": "addSuccess", "error": "addFailure", "failure": "addFailure", "skip": "addSkip",
        "xfail": "addExpectedFailure", "uxsuccess": "addUnexpectedSuccess"}
 STATUS = {"success": "success", "error": "fail", "failure": "fail", "skip": "skip", "xfail": "xfail", "uxsuccess": "uxsuccess"}
